@@ -22,10 +22,9 @@ def c16(cx):
 @prop("C01", "path-sensitive effect analysis (LEA) of every Lexer::lex_token path per mode: R-PROGRESS (each path consumes "
              "input or changes the mode stack), R-PANIC (every panic LEA cannot refute is classified; mode/peek/"
              "checkpoint assertions are decided), R-9XXX (no path reaches an internal-error emission), R-CKPT "
-             "(checkpoint typestate). Decides these shape-visible necessary conditions of totality, not linearity.")
+             "(checkpoint typestate), R-FRAME-BALANCE (frame pops never empty the pending-statement stack). Decides these shape-visible necessary conditions of totality, not linearity.")
 def c01(cx):
-    lea_glue.apply(cx, ["R-PROGRESS", "R-PANIC", "R-9XXX", "R-CKPT"])
-    rules_struct.r_pair_counters(cx, cx.facts("dev-none-stable"))
+    lea_glue.apply(cx, ["R-PROGRESS", "R-PANIC", "R-9XXX", "R-CKPT", "R-FRAME-BALANCE"])
 
 
 @prop("C04", 'LEA rules R-NEWLINE (every consumed character that may be a line feed is followed by add_line() '
@@ -132,9 +131,7 @@ def c02(cx):
              'mode that leaves a non-blank (mode push order; audited table of modes for which a blank is a '
              'terminator). Decides these mode-choreography clauses, not the absence of errors for all programs.')
 def c12(cx):
-    fx = cx.facts("dev-none-stable")
-    rules_struct.r_pair_counters(cx, fx)
-    lea_glue.apply(cx, ["R-CKPT", "R-PENDING", "R-WS-ORDER", "R-EXPECT-TABLE"])
+    lea_glue.apply(cx, ["R-CKPT", "R-PENDING", "R-WS-ORDER", "R-EXPECT-TABLE", "R-FRAME-BALANCE", "R-9XXX"])
 
 
 @prop("C17", 'R-BOM-ORDER (the BOM constant is only looked at in Lexer::new, where it is eaten once before the '
@@ -181,8 +178,7 @@ def c15(cx):
     rules_cfg.r_state_inventory(cx)
     rules_cfg.r_no_absolute(cx)
     rules_cfg.r_lookbehind(cx)
-    rules_struct.r_pair_counters(cx, cx.facts("dev-none-stable"))
-    lea_glue.apply(cx, ["R-CKPT", "R-DATALINES-START"])
+    lea_glue.apply(cx, ["R-CKPT", "R-DATALINES-START", "R-FRAME-BALANCE"])
 
 
 @prop("C18", 'R-CFGDIFF-MACROSEP: structural diff of the feature-off and feature-on HIR: feature-only code may '
